@@ -249,6 +249,10 @@ func cmdCheck(args []string) {
 		"sequential execution; no concurrent mutation of objects under contract",
 		"package-level variables are immutable after initialisation; package-level error values are non-nil and pairwise distinct",
 		"distinct allocation sites yield distinct references; parameters refer to memory allocated before the call",
+		"machine integers are modelled exactly as fixed-width bit-vectors (wrap-around), never as mathematical integers; ghost stream positions and counters are assumed to stay in [0, 2^61]",
+		"unsafe code: the word-sized loads/stores of ws.Cipher are modelled as little-endian accesses of the byte heap, strToBytes/btsToString as views of the same memory",
+		"map lookups yield arbitrary well-formed values; user callbacks without a funcval contract and calls marked havoc may change every heap",
+		"termination is proved only for loops with a decreases clause",
 		"trusted (assumed) contracts: " + strings.Join(trustedContracts(L, *prop), ", "),
 	}
 	for _, n := range notes {
